@@ -215,7 +215,9 @@ CommitEnd(res) ==
           /\ inflight' = <<>>
           /\ UNCHANGED <<hist, dur, eph, latch>>
      ELSE IF ~IsErr(res)
-     THEN /\ hist' = Append(hist, Candidate)
+     THEN \* (C08: once a storage error has been reported no commit is accepted until the database is reopened)
+          /\ latch = "ok" /\ ~wtx.tainted
+          /\ hist' = Append(hist, Candidate)
           /\ dur' = IF wtx.d = "imm" THEN Len(hist) + 1 ELSE dur
           /\ eph' = EphAfterCommit
           /\ inflight' = <<>>
